@@ -83,6 +83,11 @@ def s2(name):
         # hand-written dataclasses may use soft keywords and builtin names as field names
         return Catalogue("s2-names", [Shape("M", [_n(F("type", 1, "int32")), _n(F("match", 2, "string")), F("case", 3, "bool"), _n(F("id", 4, "int64")),
                                                   _n(F("list", 5, "uint32", "repeated")), _n(F("str", 6, "string", "optional"))])], E)  # fmt: skip
+    if name == "emptymsg":
+        # sub-messages of a type without fields (google.protobuf.Empty and the like): presence is all they carry
+        return Catalogue("s2-emptymsg", [Shape("Nil", []), Shape("M", [
+            F("e", 1, "message", msg="Nil"), F("x", 2, "message", group="g", msg="Nil"), _n(F("y", 3, "int32", group="g")),
+            F("o", 4, "message", "optional", msg="Nil"), F("r", 5, "message", "repeated", msg="Nil"), F("m", 6, "message", "map", key="bool", msg="Nil")])], E)  # fmt: skip
     if name == "maps2":
         # map fields whose Python key/value classes coincide while their protobuf kinds differ
         return Catalogue("s2-maps2", [Shape("M", [F("a", 1, "int32", "map", key="string"), F("b", 2, "sint32", "map", key="string"),
@@ -95,7 +100,7 @@ def s2(name):
     raise KeyError(name)
 
 
-S2_NAMES = ["mixed", "oneofs", "nested", "recursive", "mutual", "repmsg", "mapmsg", "optionals", "wrappers", "wrappers2", "names", "maps2", "packed"]
+S2_NAMES = ["mixed", "oneofs", "nested", "recursive", "mutual", "repmsg", "mapmsg", "optionals", "wrappers", "wrappers2", "names", "maps2", "emptymsg", "packed"]
 S1_KINDS = SCALARS + ["enum", "message"] + ["wrap:" + k for k in WRAPPER_OF]
 S1_MAP_VALUES = ["int32", "string", "bytes", "enum", "message", "double"]
 
